@@ -316,6 +316,11 @@ m("C12-r10ll", "C12", "libwallet/src/api_impl/owner.rs", "\t\tif c.late_lock_arg
 
 m("C01-r10", "C01", "libwallet/src/internal/selection.rs", "\t\t\tif coin.status == OutputStatus::Locked\n\t\t\t\t|| coin.status == OutputStatus::Spent\n\t\t\t\t|| coin.status == OutputStatus::Reverted\n\t\t\t{", "\t\t\tif coin.status == OutputStatus::Locked || coin.status == OutputStatus::Reverted {", "C01.R10")
 
+m("C20-r5", "C20", "libwallet/src/internal/updater.rs", "\t\tif client.get_kernel(&excess, min_height, None)?.is_none() {\n\t\t\treverted.insert(id);\n\t\t}", "\t\tmatch client.get_kernel(&excess, min_height, None) {\n\t\t\tOk(Some(_)) => {}\n\t\t\t_ => {\n\t\t\t\treverted.insert(id);\n\t\t\t}\n\t\t}", "C20.R5")
+m("C09-r5", "C09", "libwallet/src/slate.rs", "\t\tif pub_nonces.len() == 0 {\n\t\t\treturn Err(Error::Commit(format!(\"Participant nonces cannot be empty\")));\n\t\t}\n", "", "C09.R5")
+m("C15-r1bo", "C15", "libwallet/src/api_impl/owner.rs", "\tlet key_id = keys::next_available_key(&mut *w, keychain_mask, &parent_key_id)?;\n\n\tlet blind = k.derive_key(amount, &key_id, SwitchCommitmentType::Regular)?;", "\tlet mut path = parent_key_id.to_path();\n\tpath.depth += 1;\n\tpath.path[path.depth as usize - 1] = w.current_child_index(&parent_key_id)?.into();\n\tlet key_id = Identifier::from_path(&path);\n\n\tlet blind = k.derive_key(amount, &key_id, SwitchCommitmentType::Regular)?;", "C15.R1")
+m("C08-r2p", "C08", "libwallet/src/slate_versions/v4_bin.rs", "\t\tif self.coms.is_some() {\n\t\t\tstatus |= 0x01\n\t\t};", "\t\tif self.coms.as_ref().filter(|c| !c.is_empty()).is_some() {\n\t\t\tstatus |= 0x01\n\t\t};", "C08.R2")
+
 
 def for_property(prop):
     return [x for x in M if x["property"] == prop]
